@@ -15,6 +15,7 @@ mod c11;
 mod c12;
 mod c14;
 mod c15;
+mod c16;
 mod c17;
 mod c18;
 
@@ -37,6 +38,7 @@ fn main() {
         "io_fail_bar" => c18::io_fail_bar(rest),
         "io_fail_multi" => c18::io_fail_multi(rest),
         "human_float" => c15::human_float(rest),
+        "tabs_everywhere" => c16::tabs_everywhere(rest),
         "human_duration" => c15::human_duration(rest),
         "human_count" => c15::human_count(rest),
         "formatted_duration" => c15::formatted_duration(rest),
